@@ -246,6 +246,16 @@ func runC15Perm(c *Ctx) {
 					}
 					rec.lines = append(rec.lines, fmt.Sprintf("qs %d %d", name, peer))
 					rec.impl = append(rec.impl, fmt.Sprintf("%s %d %d", permErrName(e1), fnum, b2i(js)))
+					// the converse for the newest operation: a successful enable covering the peer, as the last operation
+					// on that name, must open the lookup (C15_perm_enable_effective)
+					if e1 != nil && op.Kind == "es" && e == nil && op.Name == name && covers(op.Nodes, peer) {
+						sig := "C15/perm-enable-ineffective"
+						if !known[sig] {
+							known[sig] = true
+							r.Violation(sig, fmt.Sprintf("EnableSpawn of name %d covering peer %d succeeded, the lookup still answers %v (after op %d)", name, peer, e1, oi),
+								map[string]interface{}{"ops": ops[:oi+1], "name": name, "peer": peer})
+						}
+					}
 					if e1 == nil && !js {
 						sig := "C15/perm-spawn-overgrant"
 						if !known[sig] {
@@ -263,6 +273,14 @@ func runC15Perm(c *Ctx) {
 					}
 					rec.lines = append(rec.lines, fmt.Sprintf("qa %d %d", name, peer))
 					rec.impl = append(rec.impl, fmt.Sprintf("%s %d", permErrName(e2), b2i(ja)))
+					if e2 != nil && op.Kind == "ea" && e == nil && op.Name == name && covers(op.Nodes, peer) {
+						sig := "C15/perm-enable-ineffective"
+						if !known[sig] {
+							known[sig] = true
+							r.Violation(sig, fmt.Sprintf("EnableApplicationStart of name %d covering peer %d succeeded, the lookup still answers %v (after op %d)", name, peer, e2, oi),
+								map[string]interface{}{"ops": ops[:oi+1], "name": name, "peer": peer})
+						}
+					}
 					if e2 == nil && !ja {
 						sig := "C15/perm-appstart-overgrant"
 						if !known[sig] {
